@@ -1,0 +1,34 @@
+//go:build verif
+
+package service
+
+import "sync/atomic"
+
+// Instrumentation points of the verification framework (/verif, property C18):
+// with the build tag `verif` every verifPoint call reports the name of the
+// point and its arguments to a callback installed with SetVerifHook. The
+// callback must be cheap and must not block. Without the tag (verif_off.go)
+// verifPoint is an empty function and the calls compile to nothing.
+//
+// One point follows every access of the recoverer to its shared state (the
+// running flag, the stopped channel), every goroutine it starts, the end of the
+// cool-down, and the return of the wrapped service's Start / Close; the first
+// argument is the recoverer, the others the outcome of the step (the value
+// read, the error received or sent, whether the service's Close succeeded).
+
+var verifHook atomic.Pointer[func(point string, args ...any)]
+
+// SetVerifHook installs (or, with nil, removes) the callback.
+func SetVerifHook(f func(point string, args ...any)) {
+	if f == nil {
+		verifHook.Store(nil)
+		return
+	}
+	verifHook.Store(&f)
+}
+
+func verifPoint(point string, args ...any) {
+	if f := verifHook.Load(); f != nil {
+		(*f)(point, args...)
+	}
+}
